@@ -1,11 +1,29 @@
 ------------------------------- MODULE SVSem -------------------------------
 (***************************************************************************)
 (* Executable two-state semantics of the SystemVerilog / Verilog subset    *)
-(* the pymtl3 back ends emit (C03, C12).  IEEE 1800-2017 clauses 6.24.1    *)
-(* (size cast), 7.4 (packed / unpacked arrays), 7.2.1 (packed structs),    *)
-(* 10.3/10.4 (continuous / procedural assignment), 11.4-11.8 (operators,   *)
-(* expression bit lengths, signedness), 12.7.1 (for loop), 23.3.3 (port    *)
-(* connections = continuous assignments; done by harness/svelab.py).       *)
+(* the pymtl3 back ends emit (C03, C12).  IEEE 1800-2017 clauses           *)
+(*   5.7.1   sized / unsized integer literals (unsized = 32 bit signed)    *)
+(*   6.24.1  size cast N'(e): e evaluated at max(N, L(e)) bits with its    *)
+(*           own signedness, truncated to N; signedness passes through     *)
+(*   7.2.1   packed structs (first member most significant)                *)
+(*   7.4     packed / unpacked arrays, indexing, invalid index (7.4.6)     *)
+(*   10.3, 10.4, 10.7  continuous / blocking / non-blocking assignment,    *)
+(*           right-hand side evaluated at max(L(lhs), L(rhs)) bits         *)
+(*   11.4    operators; 11.4.10 shift amount always unsigned;              *)
+(*   11.5    bit / part / indexed part selects (unsigned results)          *)
+(*   11.6    expression bit lengths: self-determined length SelfW, context *)
+(*           width pushed down by Eval                                     *)
+(*   11.8    signedness Sgn (11.8.1) and propagation: an operand is sign-  *)
+(*           extended only if the propagated type is signed (11.8.2)       *)
+(*   12.4    if: a condition that is zero, x or z is false                 *)
+(*   12.7.1  for loop (int unsigned loop variable, or an integer variable) *)
+(*   23.3.3  port connections = continuous assignments (harness/svelab.py) *)
+(*   23.6    hierarchical reference inst.signal (harness/svelab.py)        *)
+(* Not modelled (the parser raises SVUnsupported = machinery failure when  *)
+(* the text contains them): 4-state values other than the X marker below,  *)
+(* signed vectors / literals, <<< >>> === !==, case, while, functions,     *)
+(* tasks, generate, parameters of modules, inout, latches, several clocks, *)
+(* negedge, delays, strengths, variable initialisers.                      *)
 (*                                                                         *)
 (* A design `d` is the JSON value produced by harness/svelab.py:           *)
 (*   d.types   [name |-> [fields |-> Seq([n, ty])]]  first field = MSBs    *)
@@ -14,8 +32,10 @@
 (*   d.uns     TRUE = ignore signedness (every operand unsigned)           *)
 (* A value is a sequence of bits, least significant first; a state maps    *)
 (* every variable to the sequence of its unpacked elements (row major).    *)
-(* The bit value 2 marks an X (division by zero, out-of-range read); it    *)
-(* never compares equal to a recorded PyMTL value.                         *)
+(* A variable nobody drives keeps its initial value 0 (two-state).  The    *)
+(* bit value 2 marks an X (division by zero, out-of-range read); it is     *)
+(* propagated by every operator and never compares equal to a recorded     *)
+(* PyMTL value.                                                            *)
 (***************************************************************************)
 EXTENDS Integers, Sequences, FiniteSets, TLC, SequencesExt
 
